@@ -21,19 +21,19 @@ package arp
 // C14 / C11: the JSON encoder emits "ip", "mac", "vendor", each bound to its own field, in this order
 //@ func easyjsonD3b49167EncodeGithubComVByteCpuSxPkgScanArp
 //@   sig out, in
-//@   props C14 C11
+//@   props C14 C11 C03 C06 C16 C20
 //@   observe RawByte, RawString, String
 //@   entry row object: [call RawByte(out, 123) ; call RawString(out, "\"ip\":") ; call String(out, in.IP) ; call RawString(out, ",\"mac\":") ; call String(out, in.MAC) ;
 //@                      call RawString(out, ",\"vendor\":") ; call String(out, in.Vendor) ; call RawByte(out, 125)] -> exit
 //@ func (ScanResult).MarshalJSON
 //@   sig v
-//@   props C14 C11
+//@   props C14 C11 C03 C06 C16 C20
 //@   observe easyjsonD3b49167EncodeGithubComVByteCpuSxPkgScanArp, BuildBytes
 //@   entry row enc: [call easyjsonD3b49167EncodeGithubComVByteCpuSxPkgScanArp(bind_w, v) ; call BuildBytes(_, _) as (b)] when ret0 == b -> exit
 // de-duplication identity of an ARP result is the host address
 //@ func (*ScanResult).ID
 //@   sig r
-//@   props C14
+//@   props C14 C03 C06 C16 C20
 //@   ensures ret == r.IP
 
 // ---------------------------------------------------------------------------------------------
@@ -101,7 +101,7 @@ package arp
 // C03: capture filter text: "arp", or "arp src net " + subnet
 //@ func BPFFilter
 //@   sig r
-//@   props C03
+//@   props C03 C01 C02
 //@   modifies nothing
 //@   observe (*net.IPNet).String
 //@   entry row bare: [] when r.DstSubnet == nil && ret0 == "arp" && ret1 == 64 -> exit
@@ -164,7 +164,7 @@ package arp
 // plain-text form of a record: printing never panics, whatever the scanned host put into the record (C03 C11)
 //@ func (*ScanResult).String
 //@   sig r
-//@   props C03 C11
+//@   props C03 C11 C06 C14 C16 C20
 
 // the scan method's packet stream is its packet source's, its results are the result channel's
 //@ func (*ScanMethod).Packets
